@@ -2,16 +2,35 @@
 
 EXECUTOR = ["CallStack.append", "CallStack.pop", "CallStack.rollback", "NonThreadedExecutor._eval_formula",
             "NonThreadedExecutor._start_exec", "NonThreadedExecutor.eval_node"]
-BIG = {"CallStack.pop": 8, "CallStack.rollback": 4, "NonThreadedExecutor.eval_node": 4}
+GRAPH = ["TraceGraph.remove_with_descs", "TraceGraph.get_nodes_with", "TraceGraph.clear_obj", "TraceGraph.get_startnodes_from",
+         "ReferenceGraph.remove_with_referred", "ReferenceGraph.remove_with_descs",
+         "TraceManager.clear_with_descs", "TraceManager.clear_obj", "TraceManager.clear_attr_referrers"]
+VALUES = ["CellsImpl.on_clear_trace", "CellsImpl.has_node", "CellsImpl.clear_value_at", "CellsImpl.clear_all_values",
+          "CellsImpl._store_value", "Impl.get_property", "CellsImpl.set_value_from_key", "CellsImpl.get_value_from_key",
+          "CellsImpl.on_eval_formula", "key_to_node", "node_has_key"]
+BIG = {"CallStack.pop": 8, "CallStack.rollback": 4, "NonThreadedExecutor.eval_node": 4, "CellsImpl.set_value_from_key": 6,
+       "CellsImpl.on_eval_formula": 2, "CellsImpl.clear_all_values": 3}
 
-TB_EXEC = ["rely contract of user formulas (NodeObj.on_eval_formula: Stable + A-PURE) — assumed, monitored by the bounded driver",
+TB_EXEC = ["rely contract of user formulas (FormulaRun / NodeObj.on_eval_formula: Stable + A-PURE) — assumed, monitored by the bounded driver",
            "ErrorStack.__init__ / tracemessage (traceback frame grammar) — assumed, checked boundedly",
-           "deque / dict / networkx DiGraph primitive operations — trusted external contracts"]
+           "deque / dict / set / networkx DiGraph primitive operations, nx.descendants (axioms of Desc) — trusted external contracts",
+           "dispatch on node[OBJ] is resolved to CellsImpl; ItemSpaceParent.on_eval_formula / on_clear_trace are covered by the bounded drivers only",
+           "LazyEval.fresh modelled as a field read (its refresh is part of FormulaRun)"]
 
 
 def register(R, P):
-    P["C05"] = {"targets": list(EXECUTOR), "shards": BIG, "trusted_base": TB_EXEC,
-                "assumptions": ["interpreter C-stack depth ('chains shorter than the limit evaluate without crashing') is not decided by any contract; probed by the bounded driver"]}
-    P["C08"] = {"targets": list(EXECUTOR), "shards": BIG, "trusted_base": TB_EXEC}
-    P["C17"] = {"targets": ["CallStack.rollback", "CallStack.pop", "NonThreadedExecutor._eval_formula", "NonThreadedExecutor._start_exec"],
-                "shards": BIG, "trusted_base": TB_EXEC}
+    def prop(pid, targets, **kw):
+        d = {"targets": list(dict.fromkeys(targets)), "shards": BIG, "trusted_base": TB_EXEC}
+        d.update(kw); P[pid] = d
+    prop("C01", EXECUTOR + ["CellsImpl.on_eval_formula", "CellsImpl._store_value", "CellsImpl.has_node", "CellsImpl.get_value_from_key",
+                            "key_to_node", "Impl.get_property"])
+    prop("C02", GRAPH + ["CallStack.pop", "NonThreadedExecutor.eval_node", "CellsImpl.on_clear_trace", "CellsImpl.clear_value_at",
+                         "CellsImpl.clear_all_values", "node_has_key"])
+    prop("C05", EXECUTOR + ["CellsImpl._store_value", "Impl.get_property", "CellsImpl.on_eval_formula"],
+         assumptions=["interpreter C-stack depth ('chains shorter than the limit evaluate without crashing') is not decided by any contract; probed by the bounded driver"])
+    prop("C06", VALUES + ["TraceGraph.remove_with_descs", "TraceGraph.get_startnodes_from", "TraceManager.clear_with_descs",
+                          "ReferenceGraph.remove_with_referred", "NonThreadedExecutor.eval_node"])
+    prop("C08", EXECUTOR + ["CellsImpl.has_node", "TraceGraph.get_nodes_with", "TraceGraph.remove_with_descs", "TraceManager.clear_with_descs"])
+    prop("C09", ["CallStack.append", "CallStack.pop", "NonThreadedExecutor.eval_node", "CellsImpl.on_eval_formula",
+                 "TraceGraph.clear_obj", "TraceGraph.get_nodes_with", "TraceManager.clear_obj", "TraceManager.clear_attr_referrers"])
+    prop("C17", ["CallStack.rollback", "CallStack.pop", "NonThreadedExecutor._eval_formula", "NonThreadedExecutor._start_exec"])
